@@ -63,18 +63,18 @@ type c23Named struct {
 
 // peer alphabet: XOR offsets from base in byte 0, byte 1 and the last byte.
 var c23Peers = []c23Named{
-	{"p0(b0^80)", c23Addr(c23Mask{0, 0x80})},                     // bin 0
-	{"p1(b0^c0)", c23Addr(c23Mask{0, 0xc0})},                     // bin 0
-	{"p2(b0^40)", c23Addr(c23Mask{0, 0x40})},                     // bin 1
-	{"p3(b0^01)", c23Addr(c23Mask{0, 0x01})},                     // bin 7
-	{"p4(b1^80)", c23Addr(c23Mask{1, 0x80})},                     // bin 8
-	{"p5(b31^01)", c23Addr(c23Mask{31, 0x01})},                   // bin 31 (MaxPO), differs from self in the last bit
-	{"p6(b31^02)", c23Addr(c23Mask{31, 0x02})},                   // bin 31
+	{"p0(b0^80)", c23Addr(c23Mask{0, 0x80})},                           // bin 0
+	{"p1(b0^c0)", c23Addr(c23Mask{0, 0xc0})},                           // bin 0
+	{"p2(b0^40)", c23Addr(c23Mask{0, 0x40})},                           // bin 1
+	{"p3(b0^01)", c23Addr(c23Mask{0, 0x01})},                           // bin 7
+	{"p4(b1^80)", c23Addr(c23Mask{1, 0x80})},                           // bin 8
+	{"p5(b31^01)", c23Addr(c23Mask{31, 0x01})},                         // bin 31 (MaxPO), differs from self in the last bit
+	{"p6(b31^02)", c23Addr(c23Mask{31, 0x02})},                         // bin 31
 	{"p7(b0^80,b31^01)", c23Addr(c23Mask{0, 0x80}, c23Mask{31, 0x01})}, // bin 0, differs from p0 only in the last byte
 	// only used by the large configurations (9..12 connected peers)
-	{"p8(b0^30)", c23Addr(c23Mask{0, 0x30})},   // bin 2
-	{"p9(b0^10)", c23Addr(c23Mask{0, 0x10})},   // bin 3
-	{"p10(b1^40)", c23Addr(c23Mask{1, 0x40})},  // bin 9
+	{"p8(b0^30)", c23Addr(c23Mask{0, 0x30})},    // bin 2
+	{"p9(b0^10)", c23Addr(c23Mask{0, 0x10})},    // bin 3
+	{"p10(b1^40)", c23Addr(c23Mask{1, 0x40})},   // bin 9
 	{"p11(b31^04)", c23Addr(c23Mask{31, 0x04})}, // bin 31
 }
 
@@ -115,9 +115,9 @@ func c23LargeReach(pattern, pos, n int) int {
 // extra targets that are nobody's address
 var c23ExtraTargets = []c23Named{
 	{"self", boson.NewAddress(append([]byte{}, c23Base...))},
-	{"t(b0^20)", c23Addr(c23Mask{0, 0x20})},               // bin 2: no peer of the alphabet lives there
-	{"t(b0^a0)", c23Addr(c23Mask{0, 0xa0})},               // bin 0, between p0 and p1
-	{"t(b31^03)", c23Addr(c23Mask{31, 0x03})},             // nearer to p6 than to p5, both nearer than self? no: self at 3, p5 at 2, p6 at 1
+	{"t(b0^20)", c23Addr(c23Mask{0, 0x20})},                           // bin 2: no peer of the alphabet lives there
+	{"t(b0^a0)", c23Addr(c23Mask{0, 0xa0})},                           // bin 0, between p0 and p1
+	{"t(b31^03)", c23Addr(c23Mask{31, 0x03})},                         // nearer to p6 than to p5, both nearer than self? no: self at 3, p5 at 2, p6 at 1
 	{"t(b0^80,b31^03)", c23Addr(c23Mask{0, 0x80}, c23Mask{31, 0x03})}, // p7 at 2, p0 at 3 — decided by the last byte
 }
 
@@ -238,13 +238,13 @@ func TestVerifC23(t *testing.T) {
 	}
 
 	mc.Run(t, mc.Config{ID: "C23", Name: "C23-closest", MaxDev: -1, Params: map[string]interface{}{
-		"peer_alphabet":       pn,
-		"connected_sets":      fmt.Sprintf("all %d subsets of the first %d peers with <= %d members", nSmall, c23Small, maxSize),
+		"peer_alphabet":  pn,
+		"connected_sets": fmt.Sprintf("all %d subsets of the first %d peers with <= %d members", nSmall, c23Small, maxSize),
 		"large_configurations": map[string]interface{}{
 			"connected_sets": c23Large, "peer_reachability": c23LargeReachNames,
-			"skip_lists":     "for every target: the k nearest connected peers for k = 0..n, the k farthest for k = 1..n, all but one for every peer, one unconnected address",
-			"closest_peers":  "limits 0..n+1 with skip lists none / 3 nearest / 3 farthest / all",
-			"targets":        "p0, p3, p5, p10, self, t(b0^a0), t(b31^03), t(b0^80,b31^03)"},
+			"skip_lists":    "for every target: the k nearest connected peers for k = 0..n, the k farthest for k = 1..n, all but one for every peer, one unconnected address",
+			"closest_peers": "limits 0..n+1 with skip lists none / 3 nearest / 3 farthest / all",
+			"targets":       "p0, p3, p5, p10, self, t(b0^a0), t(b31^03), t(b0^80,b31^03)"},
 		"connect_order":       []string{"ascending", "descending"},
 		"peer_reachability":   map[int]string{2: "every assignment of {not public, public} to the connected peers (not public = never reported for p0,p2,p4,p6, reported private for p1,p3,p5,p7)", 3: "every assignment of {unknown (never reported), public, private} to the connected peers"}[reachArity],
 		"self_reachability":   c23ReachNames,
@@ -385,167 +385,187 @@ func TestVerifC23(t *testing.T) {
 		}
 
 		nontrivial := false
-		for si, selfReach := range c23ReachVals {
-			if si > 0 {
-				k.UpdateReachability(selfReach)
+		// small configurations ask both kinds of query in one pass; the large ones in two passes whose
+		// order is a choice, so that a defect in one kind cannot hide a defect in the other
+		passes := []string{"both"}
+		if large {
+			passes = []string{"single", "several"}
+			if x.Choose(2) == 1 {
+				passes = []string{"several", "single"}
 			}
-			x.Check(k.reachability == selfReach, "self-reachability-not-recorded", "UpdateReachability(%s) left %s", c23ReachNames[si], k.reachability)
-			for _, tg := range qTargets {
-				tgSkips := skipsFor(tg.addr)
-				for _, filter := range []bool{false, true} {
-					for _, sk := range tgSkips {
-						if len(sk.addrs) > 8 {
-							x.Tag("skip-list-longer-than-8")
-						}
-						el := eligible(filter, sk.addrs)
-						sortByDist(el, tg.addr)
-						for _, includeSelf := range []bool{false, true} {
-							if !includeSelf && si > 0 {
-								continue // without includeSelf the node's own reachability is not an input (asked once)
+		}
+		for _, pass := range passes {
+			for si, selfReach := range c23ReachVals {
+				if pass == "several" {
+					if si > 0 {
+						break // ClosestPeers never considers self: asked once
+					}
+				} else {
+					if si > 0 {
+						k.UpdateReachability(selfReach)
+					}
+					x.Check(k.reachability == selfReach, "self-reachability-not-recorded", "UpdateReachability(%s) left %s", c23ReachNames[si], k.reachability)
+				}
+				for _, tg := range qTargets {
+					tgSkips := skipsFor(tg.addr)
+					for _, filter := range []bool{false, true} {
+						for _, sk := range tgSkips {
+							if len(sk.addrs) > 8 {
+								x.Tag("skip-list-longer-than-8")
 							}
-							tg, includeSelf, filter, sk, si := tg, includeSelf, filter, sk, si
-							what := func() string {
-								return fmt.Sprintf("ClosestPeer(target=%s, includeSelf=%v, reachable-filter=%v, skip=%s) self-reachability=%s", tg.name, includeSelf, filter, sk.name, c23ReachNames[si])
-							}
-							skipArg := append([]boson.Address{}, sk.addrs...)
-							got, err := k.ClosestPeer(tg.addr, includeSelf, topology.Filter{Reachable: filter}, skipArg...)
-							// self eligibility: certain when asked for and publicly reachable; when asked for
-							// but not publicly reachable the statement leaves it open -> both readings accepted
-							selfSure := includeSelf && selfReach == p2p.ReachabilityStatusPublic
-							selfMaybe := includeSelf && !selfSure
-							var res string
-							switch {
-							case err == nil:
-								res = "peer"
-							case errors.Is(err, topology.ErrWantSelf):
-								res = "want-self"
-							case errors.Is(err, topology.ErrNotFound):
-								res = "not-found"
-							default:
-								x.Fail("closest-peer-unexpected-error", "%s: %v", what(), err)
-							}
-							if err != nil && !got.IsZero() && len(got.Bytes()) > 0 {
-								x.Fail("closest-peer-address-with-error", "%s: returned %s together with %v", what(), c23Name(got), err)
-							}
-							selfNearer := len(el) == 0 || c23Dist(self, tg.addr).Cmp(c23Dist(el[0], tg.addr)) < 0
-							var allowed []string
-							switch {
-							case n == 0:
-								// nothing connected: 'not found'; 'want self' also accepted (statement ambiguous)
-								allowed = []string{"not-found"}
-								if selfSure || selfMaybe {
-									allowed = append(allowed, "want-self")
+							el := eligible(filter, sk.addrs)
+							sortByDist(el, tg.addr)
+							for _, includeSelf := range []bool{false, true} {
+								if pass == "several" {
+									break
 								}
-							case len(el) == 0:
-								allowed = []string{"not-found"}
-								if selfSure {
-									// "not found exactly when no peer is eligible" vs "want self when self is eligible
-									// and nearer than every eligible peer": both clauses apply, both accepted
-									allowed = []string{"not-found", "want-self"}
-								} else if selfMaybe {
-									allowed = append(allowed, "want-self")
+								if !includeSelf && si > 0 {
+									continue // without includeSelf the node's own reachability is not an input (asked once)
 								}
-							case selfSure && selfNearer:
-								allowed = []string{"want-self"}
-							case selfMaybe && selfNearer:
-								allowed = []string{"want-self", "peer"}
-							default:
-								allowed = []string{"peer"}
-							}
-							ok := false
-							for _, a := range allowed {
-								if a == res {
-									ok = true
+								tg, includeSelf, filter, sk, si := tg, includeSelf, filter, sk, si
+								what := func() string {
+									return fmt.Sprintf("ClosestPeer(target=%s, includeSelf=%v, reachable-filter=%v, skip=%s) self-reachability=%s", tg.name, includeSelf, filter, sk.name, c23ReachNames[si])
 								}
-							}
-							if !ok {
-								key := "closest-peer-" + res + "-instead-of-" + strings.Join(allowed, "-or-")
-								var en []string
-								for _, a := range el {
-									en = append(en, c23Name(a))
+								skipArg := append([]boson.Address{}, sk.addrs...)
+								got, err := k.ClosestPeer(tg.addr, includeSelf, topology.Filter{Reachable: filter}, skipArg...)
+								// self eligibility: certain when asked for and publicly reachable; when asked for
+								// but not publicly reachable the statement leaves it open -> both readings accepted
+								selfSure := includeSelf && selfReach == p2p.ReachabilityStatusPublic
+								selfMaybe := includeSelf && !selfSure
+								var res string
+								switch {
+								case err == nil:
+									res = "peer"
+								case errors.Is(err, topology.ErrWantSelf):
+									res = "want-self"
+								case errors.Is(err, topology.ErrNotFound):
+									res = "not-found"
+								default:
+									x.Fail("closest-peer-unexpected-error", "%s: %v", what(), err)
 								}
-								x.Fail(key, "%s: got %s (%s, err %v); eligible by distance %v; self nearer than all eligible: %v", what(), res, c23Name(got), err, en, selfNearer)
-							}
-							if res == "peer" {
-								if !got.Equal(el[0]) {
+								if err != nil && !got.IsZero() && len(got.Bytes()) > 0 {
+									x.Fail("closest-peer-address-with-error", "%s: returned %s together with %v", what(), c23Name(got), err)
+								}
+								selfNearer := len(el) == 0 || c23Dist(self, tg.addr).Cmp(c23Dist(el[0], tg.addr)) < 0
+								var allowed []string
+								switch {
+								case n == 0:
+									// nothing connected: 'not found'; 'want self' also accepted (statement ambiguous)
+									allowed = []string{"not-found"}
+									if selfSure || selfMaybe {
+										allowed = append(allowed, "want-self")
+									}
+								case len(el) == 0:
+									allowed = []string{"not-found"}
+									if selfSure {
+										// "not found exactly when no peer is eligible" vs "want self when self is eligible
+										// and nearer than every eligible peer": both clauses apply, both accepted
+										allowed = []string{"not-found", "want-self"}
+									} else if selfMaybe {
+										allowed = append(allowed, "want-self")
+									}
+								case selfSure && selfNearer:
+									allowed = []string{"want-self"}
+								case selfMaybe && selfNearer:
+									allowed = []string{"want-self", "peer"}
+								default:
+									allowed = []string{"peer"}
+								}
+								ok := false
+								for _, a := range allowed {
+									if a == res {
+										ok = true
+									}
+								}
+								if !ok {
+									key := "closest-peer-" + res + "-instead-of-" + strings.Join(allowed, "-or-")
 									var en []string
 									for _, a := range el {
 										en = append(en, c23Name(a))
 									}
-									key := "closest-peer-not-nearest"
-									if !got.MemberOf(el) {
-										key = "closest-peer-not-eligible"
-										if got.MemberOf(sk.addrs) {
-											key = "closest-peer-skipped-peer-returned"
-										} else if got.MemberOf(connected) {
-											key = "closest-peer-unreachable-peer-returned"
+									x.Fail(key, "%s: got %s (%s, err %v); eligible by distance %v; self nearer than all eligible: %v", what(), res, c23Name(got), err, en, selfNearer)
+								}
+								if res == "peer" {
+									if !got.Equal(el[0]) {
+										var en []string
+										for _, a := range el {
+											en = append(en, c23Name(a))
+										}
+										key := "closest-peer-not-nearest"
+										if !got.MemberOf(el) {
+											key = "closest-peer-not-eligible"
+											if got.MemberOf(sk.addrs) {
+												key = "closest-peer-skipped-peer-returned"
+											} else if got.MemberOf(connected) {
+												key = "closest-peer-unreachable-peer-returned"
+											}
+										}
+										x.Fail(key, "%s: got %s, want %s; eligible by distance %v", what(), c23Name(got), c23Name(el[0]), en)
+									}
+									if len(el) > 1 {
+										nontrivial = true
+									}
+								}
+								x.Outcome(res)
+								if res == "want-self" && len(el) > 0 {
+									x.Tag("want-self-with-eligible-peers")
+								}
+								if res == "peer" && includeSelf && selfSure {
+									x.Tag("peer-beats-eligible-self")
+								}
+								if res == "not-found" && n > 0 {
+									x.Tag("not-found-with-connected-peers")
+								}
+							}
+							// several closest peers (self is never a candidate: asked once per Kad)
+							if si > 0 || !sk.multi || pass == "single" {
+								continue
+							}
+							for _, limit := range limits {
+								tg, limit, filter, sk := tg, limit, filter, sk
+								what := func() string {
+									return fmt.Sprintf("ClosestPeers(target=%s, limit=%d, reachable-filter=%v, skip=%s)", tg.name, limit, filter, sk.name)
+								}
+								skipArg := append([]boson.Address{}, sk.addrs...)
+								got, err := k.ClosestPeers(tg.addr, limit, topology.Filter{Reachable: filter}, skipArg...)
+								if err != nil {
+									x.Fail("closest-peers-error", "%s: %v", what(), err)
+								}
+								var gn []string
+								for _, a := range got {
+									gn = append(gn, c23Name(a))
+								}
+								for i, a := range got {
+									for j := 0; j < i; j++ {
+										if got[j].Equal(a) {
+											x.Fail("closest-peers-duplicate", "%s: %s returned twice: %v", what(), c23Name(a), gn)
 										}
 									}
-									x.Fail(key, "%s: got %s, want %s; eligible by distance %v", what(), c23Name(got), c23Name(el[0]), en)
-								}
-								if len(el) > 1 {
-									nontrivial = true
-								}
-							}
-							x.Outcome(res)
-							if res == "want-self" && len(el) > 0 {
-								x.Tag("want-self-with-eligible-peers")
-							}
-							if res == "peer" && includeSelf && selfSure {
-								x.Tag("peer-beats-eligible-self")
-							}
-							if res == "not-found" && n > 0 {
-								x.Tag("not-found-with-connected-peers")
-							}
-						}
-						// several closest peers (self is never a candidate: asked once per Kad)
-						if si > 0 || !sk.multi {
-							continue
-						}
-						for _, limit := range limits {
-							tg, limit, filter, sk := tg, limit, filter, sk
-							what := func() string {
-								return fmt.Sprintf("ClosestPeers(target=%s, limit=%d, reachable-filter=%v, skip=%s)", tg.name, limit, filter, sk.name)
-							}
-							skipArg := append([]boson.Address{}, sk.addrs...)
-							got, err := k.ClosestPeers(tg.addr, limit, topology.Filter{Reachable: filter}, skipArg...)
-							if err != nil {
-								x.Fail("closest-peers-error", "%s: %v", what(), err)
-							}
-							var gn []string
-							for _, a := range got {
-								gn = append(gn, c23Name(a))
-							}
-							for i, a := range got {
-								for j := 0; j < i; j++ {
-									if got[j].Equal(a) {
-										x.Fail("closest-peers-duplicate", "%s: %s returned twice: %v", what(), c23Name(a), gn)
+									if !a.MemberOf(el) {
+										x.Fail("closest-peers-not-eligible", "%s: %s is not eligible: %v", what(), c23Name(a), gn)
+									}
+									if i > 0 && c23Dist(got[i-1], tg.addr).Cmp(c23Dist(a, tg.addr)) > 0 {
+										x.Fail("closest-peers-order", "%s: distance decreases at position %d: %v", what(), i, gn)
 									}
 								}
-								if !a.MemberOf(el) {
-									x.Fail("closest-peers-not-eligible", "%s: %s is not eligible: %v", what(), c23Name(a), gn)
+								want := limit
+								if want > len(el) {
+									want = len(el)
 								}
-								if i > 0 && c23Dist(got[i-1], tg.addr).Cmp(c23Dist(a, tg.addr)) > 0 {
-									x.Fail("closest-peers-order", "%s: distance decreases at position %d: %v", what(), i, gn)
+								if len(got) != want {
+									x.Fail("closest-peers-count", "%s: %d peers, want min(limit, eligible)=%d: %v", what(), len(got), want, gn)
 								}
-							}
-							want := limit
-							if want > len(el) {
-								want = len(el)
-							}
-							if len(got) != want {
-								x.Fail("closest-peers-count", "%s: %d peers, want min(limit, eligible)=%d: %v", what(), len(got), want, gn)
-							}
-							for i := range got {
-								if !got[i].Equal(el[i]) {
-									x.Fail("closest-peers-not-the-nearest", "%s: position %d is %s, want %s: %v", what(), i, c23Name(got[i]), c23Name(el[i]), gn)
+								for i := range got {
+									if !got[i].Equal(el[i]) {
+										x.Fail("closest-peers-not-the-nearest", "%s: position %d is %s, want %s: %v", what(), i, c23Name(got[i]), c23Name(el[i]), gn)
+									}
 								}
-							}
-							if len(got) >= 2 {
-								x.Tag("several-closest-peers")
-							}
-							if len(got) >= 10 {
-								x.Tag("ten-or-more-closest-peers")
+								if len(got) >= 2 {
+									x.Tag("several-closest-peers")
+								}
+								if len(got) >= 10 {
+									x.Tag("ten-or-more-closest-peers")
+								}
 							}
 						}
 					}
